@@ -138,7 +138,7 @@ def nufft(input, coord, oversamp=1.25, width=4):
     output = interp.interpolate(
         output, coord, kernel="kaiser_bessel", width=width, param=beta
     )
-    output /= width**ndim
+    output /= float(width) ** ndim
 
     return output
 
@@ -201,7 +201,7 @@ def nufft_adjoint(input, coord, oshape=None, oversamp=1.25, width=4):
     output = interp.gridding(
         input, coord, os_shape, kernel="kaiser_bessel", width=width, param=beta
     )
-    output /= width**ndim
+    output /= float(width) ** ndim
 
     # IFFT
     output = ifft(output, axes=range(-ndim, 0), norm=None)
